@@ -550,6 +550,11 @@ class Interp:
     def st_Assert(self, s, env):
         v = self.eval(s.test, env)
         if is_z3(v) or isinstance(v, SV):
+            if getattr(self.session, "assert_mode", "safety") == "branch":
+                # the assertion is part of the function's behaviour (a verification step that may fail)
+                if self.truth(v):
+                    return
+                raise PyRaise(AssertionError(ast.unparse(s.test)), s.lineno)
             self.ctx.safety("assert", as_bool_term(v), f"assert at {env.qualname}:{s.lineno}")
             return
         if isinstance(v, SArr):
@@ -879,6 +884,8 @@ class Interp:
         if isinstance(obj, SObj):
             gi = self.getattr(obj, "__getitem__")
             return self.call(gi, [idx], {})
+        if getattr(obj, "_pyvc_ok", False) and hasattr(obj, "__getitem__"):
+            return obj[idx]
         if isinstance(obj, np.ndarray) and has_symbolic(idx):
             return _unbox0(A.getitem(A.as_sarr(obj), idx))
         if isinstance(obj, (list, tuple)) and has_symbolic(idx):
